@@ -333,9 +333,7 @@ func GenArgv(r *rand.Rand, p *Profile, c *Cfg) []string {
 			t := d + k
 			if chance(r, 0.35) {
 				v := genValue(r, p)
-				if c.Mode == 2 && d == "-" && !validForSingleDash(v) {
-					v = "val"
-				}
+
 				t += "=" + v
 			}
 			argv = append(argv, t)
@@ -388,12 +386,6 @@ func GenArgv(r *rand.Rand, p *Profile, c *Cfg) []string {
 		argv = argv[:p.MaxArgv]
 	}
 	return argv
-}
-
-// validForSingleDash - SingleDash mode converts the rest of a short token through []rune, which alters
-// stray bytes; such inputs are kept out of the specification-validated drivers (see DESIGN.md).
-func validForSingleDash(v string) bool {
-	return strings.ToValidUTF8(v, "") == v
 }
 
 // GenCompLine - COMP_LINE words: program name, earlier words, and a last word that is usually a prefix
